@@ -1017,11 +1017,21 @@ class Repository(controldir.ControlComponent, _RelockDebugMixin):
             intertree = InterTree.get(old_tree, trees[revision.revision_id])
             yield intertree.compare(specific_files=specific_files)
             if specific_files is not None:
-                specific_files = [
-                    p
-                    for p in intertree.find_source_paths(specific_files).values()
-                    if p is not None
-                ]
+                from dromedary.errors import NoSuchFile
+
+                source_paths = []
+                for path in specific_files:
+                    try:
+                        source_path = intertree.find_source_path(path)
+                    except NoSuchFile:
+                        # The path is not present in this revision at all
+                        # (e.g. a merged revision of a line that forked
+                        # before the file was added): keep looking for it
+                        # under the same name in the revisions that follow.
+                        source_path = path
+                    if source_path is not None:
+                        source_paths.append(source_path)
+                specific_files = source_paths
 
     def store_revision_signature(self, gpg_strategy, plaintext, revision_id):
         """Store a GPG signature for the specified revision.
